@@ -322,3 +322,160 @@ pub fn run_comp_ties(cx: &mut Ctx, th: bool) {
         if th || i % 2 == 0 { comp_tie_big(cx, 2, &x, dom, c); }
     }
 }
+
+// ---------------------------------------------------------------------------------------------
+// front ends against coq/C02/ModelFront.v  (ops 20..24 of RunCaseX.v)
+// ---------------------------------------------------------------------------------------------
+fn alg_index(a: Algorithm) -> u128 {
+    match a {
+        Algorithm::None => 0, Algorithm::Lz4 => 1, Algorithm::Zstd(3) => 2, Algorithm::Zstd(9) => 3,
+        Algorithm::Zstd(l) => (100 + l) as u128, Algorithm::Huffman => 50, Algorithm::Rans => 51, Algorithm::Dictionary => 52,
+        Algorithm::SimdLz77 => 53, Algorithm::Hybrid => 54,
+    }
+}
+fn opt_field(v: &Option<Vec<u8>>) -> Vec<u128> {
+    match v { Some(z) => { let mut e = vec![1u128, z.len() as u128]; e.extend(u(z)); e } None => vec![0, 0] }
+}
+fn len_field(v: &[u8]) -> Vec<u128> { let mut e = vec![v.len() as u128]; e.extend(u(v)); e }
+
+/// steps: (set_mode: 0 keep, else mode index + 1; entry: 0 compress, 1 deadline already passed, 2 an hour ahead, 3 compress_batch; payload)
+pub fn rt_tie(cx: &mut Ctx, mode: usize, fallback: bool, steps: &[(u64, u64, Vec<u8>)]) {
+    let cell = format!("realtime/{}", MODES[mode % 4].1);
+    let cj = json!({"cell": "rt_tie", "mode": mode, "fallback": fallback, "steps": steps.iter().map(|(a, b, d)| json!([a, b, d])).collect::<Vec<_>>()});
+    cx.sum.eval(&cell, &format!("rttie {} {} {:?}", mode, fallback, steps), steps.len() >= 2);
+    // (op, a, b, expect) collected inside the runtime, registered afterwards
+    let cases: std::cell::RefCell<Vec<(u32, Vec<u128>, Vec<u128>, Vec<u128>)>> = std::cell::RefCell::new(vec![]);
+    let res = guarded(|| {
+        let rt = tokio::runtime::Builder::new_current_thread().enable_all().build().unwrap();
+        rt.block_on(async {
+            let cfg = RealtimeConfig { mode: MODES[mode % 4].0, fallback_on_timeout: fallback, max_concurrent: 2, ..Default::default() };
+            let c = match RealtimeCompressor::new(cfg) { Ok(c) => c, Err(_) => return };
+            let mut cur = mode % 4;
+            for (sw, entry, d) in steps.iter() {
+                if *sw > 0 { let m = (*sw as usize - 1) % 4; if c.set_mode(MODES[m].0).is_ok() { cur = m; } }
+                let alg = MODES[cur].0.preferred_algorithm();
+                let k = alg_index(alg);
+                let codec = match CompressorFactory::create(alg, None) { Ok(x) => x, Err(_) => return };
+                let head = |extra: &[u128]| { let mut a = vec![(mode % 4) as u128, fallback as u128, cur as u128]; a.extend_from_slice(extra); a };
+                if *entry == 3 {
+                    let rev: Vec<u8> = d.iter().rev().cloned().collect();
+                    let items: Vec<&[u8]> = vec![d.as_slice(), rev.as_slice(), &d[..d.len() / 2], &[]];
+                    let got = c.compress_batch(items.clone()).await;
+                    let mut a = head(&[k, items.len() as u128]);
+                    for it in &items { a.extend(len_field(it)); a.extend(opt_field(&codec.compress(it).ok())); }
+                    let b = match &got { Ok(zs) => { let mut b = vec![1u128, zs.len() as u128]; for z in zs { b.extend(len_field(z)); } b } Err(_) => vec![0] };
+                    cases.borrow_mut().push((22, a, b, vec![1]));
+                    continue;
+                }
+                let got = match entry {
+                    0 => c.compress(d).await,
+                    1 => c.compress_with_deadline(d, Instant::now()).await,
+                    _ => c.compress_with_deadline(d, Instant::now() + Duration::from_secs(3600)).await,
+                };
+                let cout = codec.compress(d).ok();
+                let mut a = head(&[k, *entry as u128]); a.extend(len_field(d)); a.extend(opt_field(&cout));
+                let b = match &got { Ok(z) => { let mut b = vec![1u128]; b.extend(u(z)); b } Err(_) => vec![0] };
+                cases.borrow_mut().push((20, a, b, vec![1]));
+                if let Ok(z) = &got {
+                    // the producer the tag stands for, where the clock reading is forced (entries 1 and 2)
+                    if *entry >= 1 && !z.is_empty() {
+                        let exp = if z[0] == 0 { vec![0u128, 0] } else { vec![z[0] as u128, 1, k] };
+                        let (l0, on) = if *entry == 1 { (1u128, 0u128) } else { (0, 0) };
+                        let _ = on;
+                        cases.borrow_mut().push((23, vec![(mode % 4) as u128, cur as u128, d.len() as u128, l0, 0, 0], vec![], exp));
+                    }
+                    // decompress dispatch on the block and on blocks with other tags
+                    let mut blocks = vec![z.clone()];
+                    if !z.is_empty() { let mut w = z.clone(); w[0] = 2; blocks.push(w); let mut w = z.clone(); w[0] = 1 - z[0].min(1); blocks.push(w); }
+                    blocks.push(vec![]); blocks.push(vec![0]); blocks.push(vec![1]); blocks.push(vec![0xFF, 1, 2]);
+                    for blk in blocks {
+                        let body: &[u8] = if blk.is_empty() { &[] } else { &blk[1..] };
+                        let dout = codec.decompress(body).ok();
+                        let real = c.decompress(&blk).await.map_err(|e| e.to_string());
+                        let mut a = head(&[]); a.extend(opt_field(&dout));
+                        cases.borrow_mut().push((21, a, u(&blk), out1(&real)));
+                    }
+                }
+            }
+        })
+    });
+    if res.is_err() { cx.sum.dist("rt_tie_broken"); cx.coq(20, &[], &[], &[424242], cj.clone(), true); }
+    for (op, a, b, e) in cases.into_inner() { cx.coq(op, &a, &b, &e, cj.clone(), false); }
+}
+
+/// ops: (kind 1 set_algorithm / 2 train / 3 compress, algorithm selector, payload)
+pub fn ad_tie(cx: &mut Ctx, min_ops: usize, interval: usize, aggressive: bool, window: usize, ops: &[(u64, u64, Vec<u8>)]) {
+    let cell = "adaptive";
+    let cj = json!({"cell": "ad_tie", "min_ops": min_ops, "interval": interval, "aggressive": aggressive, "window": window,
+                    "ops": ops.iter().map(|(a, b, d)| json!([a, b, d])).collect::<Vec<_>>()});
+    cx.sum.eval(cell, &format!("adtie {} {} {} {} {:?}", min_ops, interval, aggressive, window, ops), ops.len() >= 2);
+    const SET_ALGS: [Algorithm; 9] = [Algorithm::None, Algorithm::Lz4, Algorithm::Zstd(1), Algorithm::Zstd(3), Algorithm::Zstd(9), Algorithm::SimdLz77,
+        Algorithm::Huffman, Algorithm::Rans, Algorithm::Hybrid];
+    let res = guarded(|| -> Option<(Vec<u128>, Vec<u128>)> {
+        let cfg = AdaptiveConfig { min_operations: min_ops, evaluation_interval: interval, aggressive_learning: aggressive, learning_window: window, ..Default::default() };
+        let mut a = AdaptiveCompressor::new(cfg, PerformanceRequirements::default()).ok()?;
+        let mut enc: Vec<u128> = vec![min_ops as u128, interval as u128, aggressive as u128, window as u128];
+        let mut obs: Vec<u128> = vec![];
+        for (k, sel, d) in ops {
+            match k {
+                1 => { let alg = SET_ALGS[*sel as usize % SET_ALGS.len()]; let ok = a.set_algorithm(alg).is_ok(); enc.extend([1, alg_index(alg), ok as u128]); }
+                2 => { let _ = a.train(&[(d.as_slice(), "t")]); enc.push(2); }
+                _ => {
+                    match guarded(|| a.compress(d)) {
+                        Err(_) => { enc.extend([3, 1]); obs.push(99); return Some((enc, obs)); }
+                        Ok(r) => {
+                            enc.extend([3, r.is_ok() as u128]);
+                            obs.push(alg_index(a.current_algorithm()));
+                            obs.push(a.stats().operations as u128);
+                            if let Ok(z) = r {
+                                // produced by the codec of the algorithm the compressor names, and decoded by the compressor
+                                let want = CompressorFactory::create(a.current_algorithm(), None).ok().and_then(|c| c.compress(d).ok());
+                                obs.push((want.as_ref() == Some(&z)) as u128);
+                                obs.push((a.decompress(&z).ok().as_ref() == Some(d)) as u128);
+                            }
+                            continue;
+                        }
+                    }
+                }
+            }
+            obs.push(alg_index(a.current_algorithm()));
+            obs.push(a.stats().operations as u128);
+        }
+        Some((enc, obs))
+    });
+    match res {
+        Ok(Some((enc, obs))) => cx.coq(24, &enc, &[], &obs, cj, false),
+        Ok(None) => cx.sum.dist("ad_tie_setup_refused"),
+        Err(_) => { cx.sum.dist("ad_tie_broken"); cx.coq(24, &[], &[], &[424242], cj, true); }
+    }
+}
+
+pub fn run_front_ties(cx: &mut Ctx, th: bool) {
+    for k in 0..(if th { 300 } else { 40 }) {
+        let mut r = cx.rng.clone();
+        let n = r.range(1, 4) as usize;
+        let steps: Vec<(u64, u64, Vec<u8>)> = (0..n).map(|_| {
+            let fam = r.below(10);
+            let l = *r.pick(&[0usize, 1, 10, 63, 64, 65, 200]);
+            (if r.chance(1, 3) { r.range(1, 4) } else { 0 }, r.below(4), payload(&mut r, fam, l))
+        }).collect();
+        let fb = !r.chance(1, 3);
+        cx.rng = r;
+        rt_tie(cx, k % 4, fb, &steps);
+    }
+    for k in 0..(if th { 300 } else { 50 }) {
+        let mut r = cx.rng.clone();
+        let n = if k % 5 == 0 { r.range(20, 60) } else { r.range(1, 10) } as usize;
+        let ops: Vec<(u64, u64, Vec<u8>)> = (0..n).map(|_| {
+            let kind = *r.pick(&[1u64, 2, 3, 3, 3, 3]);
+            let l = r.range(0, 40) as usize;
+            (kind, r.below(9), r.bytes(if kind == 2 { l.max(1) } else { l }))
+        }).collect();
+        let min_ops = *r.pick(&[0usize, 1, 5, 50]);
+        let interval = *r.pick(&[0usize, 1, 3, 3, 1000]);
+        let aggressive = r.chance(1, 2);
+        let window = *r.pick(&[0usize, 1, 16]);
+        cx.rng = r;
+        ad_tie(cx, min_ops, interval, aggressive, window, &ops);
+    }
+}
